@@ -20,10 +20,17 @@ from .symnum import HarnessError
 
 # abstract actions
 LOCAL, TEST_PRESENT, RET_TABLE, ALLOC, STORE, RET_SELF, SETDEFAULT_RET, SETDEFAULT_ASSIGN, \
-    RET_OTHER, LOCK_ACQ, LOCK_REL, BRANCH_LOCAL, END, SETDEFAULT_DISCARD = range(14)
+    RET_OTHER, LOCK_ACQ, LOCK_REL, BRANCH_LOCAL, END, SETDEFAULT_DISCARD, \
+    SDR_RET, SDW_RET, SDR_ASSIGN, SDW_ASSIGN, SDR_DISCARD, SDW_DISCARD = range(20)
 NAMES = ["LOCAL", "TEST_PRESENT", "RET_TABLE", "ALLOC", "STORE", "RET_SELF", "SETDEFAULT_RET",
          "SETDEFAULT_ASSIGN", "RET_OTHER", "LOCK_ACQ", "LOCK_REL", "BRANCH_LOCAL", "END",
-         "SETDEFAULT_DISCARD"]
+         "SETDEFAULT_DISCARD", "SD_READ_RET", "SD_WRITE_RET", "SD_READ_ASSIGN", "SD_WRITE_ASSIGN",
+         "SD_READ_DISCARD", "SD_WRITE_DISCARD"]
+# a table that is not a builtin dict has a Python-level setdefault: a look-up, then (if absent) an
+# unconditional store, with a preemption point in between -- two steps instead of one
+SPLIT = {SETDEFAULT_RET: (SDR_RET, SDW_RET), SETDEFAULT_ASSIGN: (SDR_ASSIGN, SDW_ASSIGN),
+         SETDEFAULT_DISCARD: (SDR_DISCARD, SDW_DISCARD)}
+RETURNS = (RET_TABLE, RET_SELF, SETDEFAULT_RET, RET_OTHER, SDW_RET)
 
 
 class Step:
@@ -50,7 +57,9 @@ class Extractor:
     """Turns the body of one function into steps.  `env` gives concrete values for arguments so
     that branches on arguments only can be resolved (the chosen call is concrete)."""
 
-    def __init__(self, func: Any, table: str, env: Dict[str, Any], is_init: bool = False) -> None:
+    def __init__(self, func: Any, table: str, env: Dict[str, Any], is_init: bool = False,
+                 atomic_setdefault: bool = True) -> None:
+        self.atomic = atomic_setdefault
         src = textwrap.dedent(inspect.getsource(func))
         self.first_line = func.__code__.co_firstlineno
         tree = ast.parse(src)
@@ -63,7 +72,18 @@ class Extractor:
         return node.lineno + self.offset
 
     def add(self, node: ast.AST, action: int) -> int:
-        self.steps.append(Step(self.line(node), action, ast.unparse(node).split("\n")[0][:70]))
+        src = ast.unparse(node).split("\n")[0][:70]
+        if action in SPLIT and not self.atomic:
+            rd, wr = SPLIT[action]
+            self.steps.append(Step(self.line(node), rd, src))
+            i = len(self.steps) - 1
+            self.steps.append(Step(self.line(node), wr, "<the store inside the table's own setdefault>"))
+            self.steps[i].next = i + 1        # absent: go on to the store
+            # present: leave through the read step's `alt`, patched like the write step's `next`
+            self.split_reads = getattr(self, "split_reads", {})
+            self.split_reads[i + 1] = i
+            return i + 1
+        self.steps.append(Step(self.line(node), action, src))
         return len(self.steps) - 1
 
     def run(self) -> List[Step]:
@@ -78,6 +98,9 @@ class Extractor:
     def _patch(self, ref: Tuple[int, str], target: int) -> None:
         idx, field = ref
         setattr(self.steps[idx], field, target)
+        rd = getattr(self, "split_reads", {}).get(idx)
+        if rd is not None and field == "next":
+            self.steps[rd].alt = target      # the 'present' exit of a split setdefault
 
     def block(self, stmts: List[ast.stmt]) -> List[Tuple[int, str]]:
         """Returns the dangling exits (step index, field) that fall through the block."""
@@ -154,7 +177,7 @@ class Extractor:
             self._patch((i, "next"), start)
             # returns inside the block release the lock as well: mark every RET inside
             for k in range(start, len(self.steps)):
-                if self.steps[k].action in (RET_TABLE, RET_SELF, SETDEFAULT_RET, RET_OTHER):
+                if self.steps[k].action in RETURNS + (SDR_RET,):
                     self.steps[k].src += "  [releases lock]"
             j = len(self.steps)
             self.steps.append(Step(self.line(st), LOCK_REL, "<release>"))
@@ -194,10 +217,10 @@ class Extractor:
         raise HarnessError(f"unmodelled statement form {type(st).__name__}: {ast.unparse(st)[:80]}")
 
 
-def extract(cls: Any, table: str, env: Dict[str, Any]) -> List[Step]:
+def extract(cls: Any, table: str, env: Dict[str, Any], atomic_setdefault: bool = True) -> List[Step]:
     """Steps of `cls.__new__` followed by `cls.__init__` (as run by type.__call__)."""
-    new = Extractor(cls.__new__, table, env).run()
-    init = Extractor(cls.__init__, table, env, is_init=True).run()
+    new = Extractor(cls.__new__, table, env, atomic_setdefault=atomic_setdefault).run()
+    init = Extractor(cls.__init__, table, env, is_init=True, atomic_setdefault=atomic_setdefault).run()
     # chain: END of __new__ -> first of __init__
     off = len(new) - 1
     steps = new[:-1]
@@ -206,11 +229,13 @@ def extract(cls: Any, table: str, env: Dict[str, Any]) -> List[Step]:
             s.next = off
         if s.alt == len(new) - 1:
             s.alt = off
-        if s.next is None and s.action in (RET_TABLE, RET_SELF, SETDEFAULT_RET, RET_OTHER):
+        if s.next is None and s.action in RETURNS:
             s.next = off
+        if s.alt is None and s.action == SDR_RET:
+            s.alt = off
     for s in init:
         s2 = Step(s.line, s.action if s.action != RET_SELF else LOCAL, s.src)
-        if s.action in (RET_TABLE, RET_SELF, SETDEFAULT_RET, RET_OTHER) and s.next is None:
+        if s.action in RETURNS and s.next is None:
             s2.next = off + len(init) - 1
         else:
             s2.next = None if s.next is None else s.next + off
@@ -218,7 +243,8 @@ def extract(cls: Any, table: str, env: Dict[str, Any]) -> List[Step]:
         if s.action == END:
             s2.action = END
         # the __init__ steps never touch the table: extraction above refuses otherwise
-        if s.action in (TEST_PRESENT, STORE, ALLOC, SETDEFAULT_RET, SETDEFAULT_ASSIGN, RET_TABLE):
+        if s.action in (TEST_PRESENT, STORE, ALLOC, SETDEFAULT_RET, SETDEFAULT_ASSIGN, RET_TABLE,
+                        SETDEFAULT_DISCARD, SDR_RET, SDW_RET, SDR_ASSIGN, SDW_ASSIGN, SDR_DISCARD, SDW_DISCARD):
             raise HarnessError(f"__init__ touches the intern table: {s.src}")
         steps.append(s2)
     return steps
@@ -255,7 +281,7 @@ def search(steps: List[Step], threads: int, timeout_ms: int = 60000) -> Dict[str
                 alt = s.alt if s.alt is not None else end
                 keep_tab, keep_self, keep_ret, keep_lock = tab[t + 1] == tab[t], slf[t + 1][k] == slf[t][k], \
                     ret[t + 1][k] == ret[t][k], lock[t + 1] == lock[t]
-                is_ret = s.action in (RET_TABLE, RET_SELF, SETDEFAULT_RET, RET_OTHER)
+                is_ret = s.action in RETURNS
                 rel = "[releases lock]" in s.src
                 lk = (lock[t + 1] == 0) if rel else keep_lock
                 a = s.action
@@ -285,6 +311,24 @@ def search(steps: List[Step], threads: int, timeout_ms: int = 60000) -> Dict[str
                 elif a == SETDEFAULT_DISCARD:
                     newtab = z3.If(tab[t] == 0, slf[t][k], tab[t])
                     eff = z3.And(pc[t + 1][k] == nxt, tab[t + 1] == newtab, keep_self, keep_ret, keep_lock)
+                elif a == SDR_RET:         # look-up half of a Python-level setdefault
+                    eff = z3.And(keep_tab, keep_self,
+                                 z3.If(tab[t] != 0, z3.And(pc[t + 1][k] == alt, ret[t + 1][k] == tab[t], lk),
+                                       z3.And(pc[t + 1][k] == nxt, keep_ret, keep_lock)))
+                elif a == SDW_RET:         # store half: unconditional
+                    eff = z3.And(pc[t + 1][k] == nxt, tab[t + 1] == slf[t][k], ret[t + 1][k] == slf[t][k],
+                                 keep_self, lk)
+                elif a == SDR_ASSIGN:
+                    eff = z3.And(keep_tab, keep_ret, keep_lock,
+                                 z3.If(tab[t] != 0, z3.And(pc[t + 1][k] == alt, slf[t + 1][k] == tab[t]),
+                                       z3.And(pc[t + 1][k] == nxt, keep_self)))
+                elif a == SDW_ASSIGN:
+                    eff = z3.And(pc[t + 1][k] == nxt, tab[t + 1] == slf[t][k], keep_self, keep_ret, keep_lock)
+                elif a == SDR_DISCARD:
+                    eff = z3.And(keep_tab, keep_self, keep_ret, keep_lock,
+                                 pc[t + 1][k] == z3.If(tab[t] != 0, alt, nxt))
+                elif a == SDW_DISCARD:
+                    eff = z3.And(pc[t + 1][k] == nxt, tab[t + 1] == slf[t][k], keep_self, keep_ret, keep_lock)
                 elif a == RET_OTHER:
                     eff = z3.And(pc[t + 1][k] == nxt, ret[t + 1][k] == -1, keep_tab, keep_self, lk)
                 elif a == LOCK_ACQ:
